@@ -144,7 +144,7 @@ func (E *Engine) entryState(c *fnCtx, suffix string) *State {
 		if pt, isPtr := types.Unalias(fv.Type()).Underlying().(*types.Pointer); isPtr && v.F == nil {
 			// a captured variable: a live cell of its own family
 			facts = append(facts, not(eq(v.S, "0")))
-			if _, isStruct := types.Unalias(pt.Elem()).Underlying().(*types.Struct); !isStruct {
+			if strings.HasPrefix(E.rootName(pt.Elem()), "box<") {
 				v.LV = &LVal{Kind: lvHeap, Ref: v.S, Root: pt.Elem(), VarCell: true}
 			}
 		}
@@ -483,6 +483,11 @@ func (E *Engine) loopEnter(st *State, li *loopInfo, from *ssa.BasicBlock) bool {
 		st.variantAt[li.Header] = ev.eval(li.Spec.Decr.Expr).S
 	}
 	st.inLoop[li.Header] = true
+	if st.loopLog == nil {
+		st.loopLog = map[int]int{}
+	}
+	st.loopLog[li.Ordinal] = len(st.log)
+	st.ghost["curloop"] = fmt.Sprint(li.Ordinal)
 	if !c.coveredLoop[li.Ordinal] {
 		c.coveredLoop[li.Ordinal] = true
 		E.cover(st, fmt.Sprintf("loop%d", li.Ordinal), "loop invariants are satisfiable at the loop head", E.blockPos(li.Header))
@@ -515,6 +520,15 @@ func (E *Engine) loopBack(st *State, li *loopInfo, from *ssa.BasicBlock) {
 	}
 	for _, f := range E.inferredInvs(st, li) {
 		E.oblige(st, "inv-preserve", site+".range", f, "range index bounds", E.blockPos(li.Header), nil)
+	}
+	if li.Spec != nil {
+		st.ghost["curloop"] = fmt.Sprint(li.Ordinal)
+		for i, cl := range li.Spec.Body {
+			ev := E.cenvFor(st, c, cl.Ctx)
+			ev.loopMode = true
+			ev.goal = true
+			E.oblige(st, "each", fmt.Sprintf("%s.%d", site, i), ev.evalBool(cl.Expr), cl.Text, E.blockPos(li.Header), cl)
+		}
 	}
 	if li.Spec != nil && li.Spec.Decr != nil {
 		ev := E.cenvFor(st, c, li.Spec.Decr.Ctx)
@@ -927,7 +941,7 @@ func (E *Engine) binop(st *State, in *ssa.BinOp) *Val {
 	}
 	if arith {
 		if _, _, ok := intRange(T); ok {
-			if isUnsigned(T) {
+			if isUnsigned(T) || (E.cur.spec != nil && E.cur.spec.WrapSigned) {
 				r = E.wrapSt(st, T, r)
 			} else {
 				E.oblige(st, "overflow", E.site(in), inRange(T, r), fmt.Sprintf("no signed overflow in %s", in.Op), E.pos(in), nil)
